@@ -123,6 +123,7 @@ func c12(r *core.Report) {
 	r.Assumption("equality of verdicts where a data difference (not a mode flag) makes one mode reach a failure point another does not is not decided")
 	r.Assumption("whether the JSON pointer resolves inside the value for oneOf sub-errors and message customiser behaviour are not decided")
 
+	c12ErrKind(r)
 	nMode, nLit := 0, 0
 	r.RunRule("C12.modes", "once a keyword has failed every mode returns non-nil: (M1) every `if` on a mode flag (failfast/multiError) has the flag as its whole condition and a body that is a single return of a provably non-nil error; (M5) the statements following it in the same list record the failure on the fall-through path (append to the accumulator or non-nil return); (M2) every non-empty SchemaError literal is returned directly or bound to a local that is then returned or appended unconditionally in the same list; (M3) a function with an accumulator ends with `if len(me) > 0 { return me }; return nil` and has no other possibly-nil return after the first append; mode flags are read nowhere else", 90, func() {
 		for _, vn := range c12Visitors {
@@ -508,4 +509,100 @@ func usesObj(info *types.Info, e ast.Node, o types.Object) bool {
 		return !found
 	})
 	return found
+}
+
+// c12ErrKind: in fail-fast mode a failing sub-visit returns the plain sentinel errSchema, in the
+// other modes a *SchemaError or a MultiError. A visitor that looks at the KIND of a sub-visit's
+// error to decide something decides differently per mode; the verdict of a sub-visit is err == nil.
+func c12ErrKind(r *core.Report) {
+	p := r.Prog
+	info := p.Pkg("openapi3").TypesInfo
+	r.RunRule("C12.errkind", "the verdict of a sub-visit is `err == nil`: in the visitor family no type switch is taken on the error returned by a visit call, and no type assertion on such an error guards a return — the fail-fast sentinel is a plain error, neither *SchemaError nor MultiError (flattening a MultiError into the list of collected errors is not a decision and is allowed)", 5, func() {
+		isVisit := func(c *ast.CallExpr) bool {
+			f := core.CalleeOf(info, c)
+			return f != nil && strings.HasPrefix(f.Name(), "visit") && f.Pkg() != nil && f.Pkg().Name() == "openapi3"
+		}
+		for _, vn := range c12Visitors {
+			fd := p.DeclOf("openapi3", vn)
+			if fd == nil || fd.Body == nil {
+				continue
+			}
+			ff := core.NewFuncFacts(p, info, fd)
+			fromVisit := func(e ast.Expr) bool {
+				e = ast.Unparen(e)
+				if c, ok := e.(*ast.CallExpr); ok {
+					return isVisit(c)
+				}
+				if id, ok := e.(*ast.Ident); ok {
+					for _, a := range ff.Assigns(info.ObjectOf(id)) {
+						if c, ok := ast.Unparen(a.Rhs).(*ast.CallExpr); ok && a.Rhs != nil && isVisit(c) {
+							return true
+						}
+						if a.Call != nil && isVisit(a.Call) {
+							return true
+						}
+					}
+				}
+				return false
+			}
+			k := 0
+			nvis := 0
+			ast.Inspect(fd.Body, func(n ast.Node) bool {
+				switch x := n.(type) {
+				case *ast.CallExpr:
+					if isVisit(x) {
+						nvis++
+					}
+				case *ast.TypeSwitchStmt:
+					var operand ast.Expr
+					switch a := x.Assign.(type) {
+					case *ast.ExprStmt:
+						if ta, ok := a.X.(*ast.TypeAssertExpr); ok {
+							operand = ta.X
+						}
+					case *ast.AssignStmt:
+						if ta, ok := a.Rhs[0].(*ast.TypeAssertExpr); ok {
+							operand = ta.X
+						}
+					}
+					if x.Init != nil {
+						if as, ok := x.Init.(*ast.AssignStmt); ok && len(as.Rhs) == 1 {
+							if c, ok := ast.Unparen(as.Rhs[0]).(*ast.CallExpr); ok && isVisit(c) {
+								operand = as.Rhs[0]
+							}
+						}
+					}
+					if operand != nil && fromVisit(operand) {
+						k++
+						r.Bad(fmt.Sprintf("errkind:%s#%d", vn, k), p.Pos(x.Pos()), fmt.Sprintf("%s switches on the type of the error a sub-visit returned: in fail-fast mode (and in IsMatching*) a failing sub-visit returns the plain sentinel errSchema, which matches none of the *SchemaError / MultiError cases, so the verdict differs between modes", vn))
+					}
+				case *ast.IfStmt:
+					// if v, ok := err.(T); ok { ... return ... }
+					as, ok := x.Init.(*ast.AssignStmt)
+					if !ok || len(as.Rhs) != 1 {
+						return true
+					}
+					ta, ok := ast.Unparen(as.Rhs[0]).(*ast.TypeAssertExpr)
+					if !ok || !fromVisit(ta.X) {
+						return true
+					}
+					returns := false
+					ast.Inspect(x.Body, func(m ast.Node) bool {
+						if _, isRet := m.(*ast.ReturnStmt); isRet {
+							returns = true
+						}
+						return true
+					})
+					if returns {
+						k++
+						r.Bad(fmt.Sprintf("errkind:%s#%d", vn, k), p.Pos(x.Pos()), fmt.Sprintf("%s returns depending on the dynamic type of a sub-visit's error: the fail-fast sentinel has neither type, so the modes disagree", vn))
+					}
+				}
+				return true
+			})
+			if k == 0 && nvis > 0 {
+				r.OK("errkind:"+vn, p.Pos(fd.Pos()), fmt.Sprintf("%d sub-visit(s), none judged by the type of its error", nvis))
+			}
+		}
+	})
 }
